@@ -634,7 +634,9 @@ def compare(ctx, case, line, out, expect, rep):
             mod_vis = [(int(v[0]), v[2] == "1", v[1]) for v in mv]
             imp_vis = [(c, mb, f2hex(rho)) for (c, mb, rho) in st["visits"]]
             if mod_vis != imp_vis:
-                ctx.issue("diff", f"topo:{cls}:visits", f"{where}: (category, match bit, threshold in force) impl {imp_vis} "
+                # the model ran on the estimator's OWN recorded activations, match values and reset answers: C14 fixes
+                # the thresholds in force along both searches, so a different sequence is a violation at this step
+                ctx.issue("violation", f"TopoART[{cls}]:search-differs-from-rule", f"{where}: (category, match bit, threshold in force) impl {imp_vis} "
                           f"model {mod_vis}", rep)
                 return
             if has_reset and [(int(v[0]), v[3] == "1") for v in mv] != st["resets"]:
@@ -644,7 +646,8 @@ def compare(ctx, case, line, out, expect, rep):
             ib = str(ups[0][0]) if ups else "-"
             is_ = str(ups[1][0]) if len(ups) > 1 else "-"
             if (kv["B"], kv["S"]) != (ib, is_):
-                ctx.issue("diff", f"topo:{cls}:winners", f"{where}: impl best/second {ib}/{is_} model {kv['B']}/{kv['S']}", rep)
+                ctx.issue("violation", f"TopoART[{cls}]:winners-differ-from-rule", f"{where}: the estimator updated best/second {ib}/{is_}; the "
+                          f"two-winner rule applied to the recorded activations, match values and reset answers gives {kv['B']}/{kv['S']}", rep)
                 return
             if (kv["P"] == "1") != (st["prune"] is not None):
                 ctx.issue("diff", f"topo:{cls}:schedule", f"{where}: impl pruned={st['prune'] is not None} model P={kv['P']}", rep)
